@@ -101,8 +101,9 @@ def _(key: bytes, encrypted_data: bytes, iv_data: Optional[bytes]) -> bytes:
 
 
 @contract("spsdk.crypto.symmetric:aes_ctr_encrypt")
-def _(key: AesKey, plain_data: bytes, nonce: Bytes(16)) -> bytes:
-    returns(AES_CTR(key, nonce, plain_data))
+def _(key: AesKey, plain_data: Union[bytes, bytearray], nonce: Bytes(16)) -> bytes:
+    # callers (IEE, OTFAD) hand over bytearray chunks; the wrapper passes them on unchanged
+    returns(AES_CTR(key, nonce, bytes(plain_data)))
     pure()
 
 
